@@ -95,28 +95,48 @@ theorem cut_leaves_disconnected (cfg : Cfg) (script : List Ev)
   simp [r, step, socketGone, hc, onSocketDisconnected, hred, closeSession, isConnected]
 
 /-- **Outstanding requests are completed or retained, and retained only when resumable.**  At the cut, if the stream is not
-resumable every outstanding request of the application is finished with an error (one `iqDone` per request, before the
-`disconnected` signal) and none is left; if it is resumable all of them are kept and none is finished. -/
+resumable every outstanding request of the application is finished with an error before the `disconnected` signal and none is
+left — INCLUDING the requests that failure continuations send during the teardown ("retry once"): the ack manager is switched
+off before the requests are cancelled, so such a retry meets a dead socket and fails at once (`failedRetries`).  If the stream is
+resumable all requests are kept and none is finished. -/
 theorem requests_completed_or_retained (cfg : Cfg) (script : List Ev)
     (hc : (run (init cfg) script).1.conn = .connected) :
     let s := (run (init cfg) script).1
     let r := step s .socketDisconnected
-    (s.canResume = false → r.2 = iqDones s.pendingIq ++ [.sig .disconnected] ∧ r.1.pendingIq = 0) ∧
-    (s.canResume = true → r.2 = [.sig .disconnected] ∧ r.1.pendingIq = s.pendingIq) := by
+    (s.canResume = false →
+      r.2 = iqDones s.pendingIq ++ failedRetries s.pendingRetry ++ [.sig .disconnected] ∧
+      r.1.pendingIq = 0 ∧ r.1.pendingRetry = 0) ∧
+    (s.canResume = true → r.2 = [.sig .disconnected] ∧ r.1.pendingIq = s.pendingIq ∧ r.1.pendingRetry = s.pendingRetry) := by
   intro s r
   have hred : s.redirect = false := run_red script (init cfg) rfl
   constructor
   · intro h
-    simp [r, step, socketGone, hc, onSocketDisconnected, hred, closeSession, h, s]
+    simp [r, step, socketGone, hc, onSocketDisconnected, hred, closeSession, h, s, retryN_down]
   · intro h
-    simp [r, step, socketGone, hc, onSocketDisconnected, hred, closeSession, h, s, iqDones]
+    simp [r, step, socketGone, hc, onSocketDisconnected, hred, closeSession, h, s, iqDones, retryN]
+
+/-- **No request outlives an orderly end either**: when the server closes the stream (`</stream:stream>`, alone or at the end of
+a read) nothing can be resumed, and afterwards no request is outstanding — plain, retrying, or created by a continuation while
+the session was torn down. -/
+theorem no_request_outlives_a_stream_end (cfg : Cfg) (script : List Ev)
+    (hc : (run (init cfg) script).1.conn = .connected) :
+    (step (run (init cfg) script).1 .closeTail).1.pendingIq = 0 ∧
+    (step (run (init cfg) script).1 .closeTail).1.pendingRetry = 0 ∧
+    (step (run (init cfg) script).1 .closeTail).1.conn = .disconnected := by
+  have hred : (run (init cfg) script).1.redirect = false := run_red script (init cfg) rfl
+  generalize (run (init cfg) script).1 = s at *
+  simp [step, disconnectFromHost, socketClose, hc, onSocketDisconnected, hred, closeSession, retryN_down]
 
 /-- …and a retained request does not outlive the next session unless that session is a resumption: opening a session that
-was not resumed finishes every outstanding request. -/
+was not resumed finishes every outstanding request (what the failure continuations of retry-requests send then belongs to the
+new session and is outstanding there). -/
 theorem retained_requests_end_with_new_session (s : St) (h : s.smResumed = false) :
-    (openSession s).1.pendingIq = 0 := by
-  have := (openSession_spec s).2.2.2
-  simpa [h] using this
+    (openSession s).1.pendingRetry = 0 ∧ (s.pendingRetry = 0 → (openSession s).1.pendingIq = 0) := by
+  refine ⟨?_, fun h0 => ?_⟩
+  · simp [openSession, cancelOld, h, csiOnSessionOpened, csiSendState]
+    (repeat' split) <;> simp [sendStanza] <;> (repeat' split) <;> simp
+  · have := (openSession_spec s).2.2.2 h0
+    simpa [h] using this
 
 /-- a request issued while disconnected (and without stream management) fails at once -/
 theorem request_while_disconnected_fails (s : St) (hc : s.conn ≠ .connected) (ha : s.ackEnabled = false) :
